@@ -23,7 +23,9 @@ ASSUMPTIONS = ["str() / repr() of parts, conditions and types is supplied by the
 
 META = ["<b>bold</b>", "a & b", 'say "hi"', "it's", "`code`", "x `a<b` y", "plain", "tick ` alone", "`a`\n`b`", "<script>alert(1)</script>",
         "a`b`c`d", "``", "é → ü", "1 < 2 > 0"]
-KEYS = ["a", "b", "k<1>", "x&y", 'q"t', "name", 0, 1, "é"]
+KEYS = ["a", "b", "k<1>", "x&y", 'q"t', "name", 0, 1, "é",
+        # long sibling keys that differ only in the middle (any abbreviation of the text of a part would merge them)
+        "temperature_at_inlet_of_reactor_kelvin", "temperature_at_outlet_of_reactor_kelvin"]
 
 
 class Balance(HTMLParser):
